@@ -202,9 +202,33 @@ func c11Index(rng *rand.Rand, kind string) []byte {
 	return b
 }
 
-func c11Cram(rng *rand.Rand) []byte {
-	r := core.NewResult()
-	_ = r
+// c11Cram builds a CRAM stream with valid CRCs. With hostile set, individual
+// fields lie (declared lengths off by a few, negative or large sizes, unknown
+// methods, wrong counts) while the checksums stay valid, so that the lie
+// reaches the code behind the CRC checks.
+func c11Cram(rng *rand.Rand, hostile bool) []byte {
+	lie := func(v int32) int32 {
+		if !hostile || rng.Intn(3) != 0 {
+			return v
+		}
+		switch rng.Intn(8) {
+		case 0:
+			return v + 1
+		case 1:
+			return v - 1
+		case 2:
+			return v + int32(1+rng.Intn(4))
+		case 3:
+			return -1
+		case 4:
+			return 0
+		case 5:
+			return -v
+		case 6:
+			return v + 100
+		}
+		return int32(rng.Intn(1 << 16))
+	}
 	var f bytes.Buffer
 	f.WriteString("CRAM")
 	f.Write([]byte{3, 0})
@@ -216,12 +240,22 @@ func c11Cram(rng *rand.Rand) []byte {
 		for bi := 0; bi < nb; bi++ {
 			var b bytes.Buffer
 			method := byte(0)
+			if hostile && rng.Intn(4) == 0 {
+				method = byte(rng.Intn(7))
+			}
 			typ := byte([]int{0, 1, 2, 4, 5}[rng.Intn(5)])
 			var payload []byte
 			switch typ {
 			case 0: // file header: length prefixed SAM header text
 				t := []byte("@HD\tVN:1.6\n@SQ\tSN:chr1\tLN:1000\n")
-				payload = append([]byte{byte(len(t)), 0, 0, 0}, t...)
+				if hostile && rng.Intn(3) == 0 {
+					t = t[:rng.Intn(len(t))]
+				}
+				dl := lie(int32(len(t)))
+				payload = append([]byte{byte(dl), byte(dl >> 8), byte(dl >> 16), byte(dl >> 24)}, t...)
+				if hostile && rng.Intn(6) == 0 {
+					payload = payload[:rng.Intn(5)] // shorter than its own length field
+				}
 			case 2: // slice header
 				payload = append(payload, i8(0)...)
 				payload = append(payload, i8(1)...)
@@ -240,8 +274,16 @@ func c11Cram(rng *rand.Rand) []byte {
 			b.WriteByte(method)
 			b.WriteByte(typ)
 			b.Write(i8(int32(bi)))
-			b.Write(i8(int32(len(payload))))
-			b.Write(i8(int32(len(payload))))
+			cs := int32(len(payload))
+			rs := cs
+			if hostile && rng.Intn(6) == 0 {
+				cs = lie(cs)
+				if method == 0 && rng.Intn(2) == 0 {
+					rs = cs
+				}
+			}
+			b.Write(i8(cs))
+			b.Write(i8(rs))
 			b.Write(payload)
 			var crc [4]byte
 			putCRC(crc[:], b.Bytes())
@@ -256,9 +298,9 @@ func c11Cram(rng *rand.Rand) []byte {
 		h.Write(i8(int32(rng.Intn(1000))))
 		h.Write(oracle.LTF8Encode(rng.Int63n(1 << 40)))
 		h.Write(oracle.LTF8Encode(rng.Int63n(1 << 40)))
-		h.Write(i8(int32(nb)))
+		h.Write(i8(lie(int32(nb))))
 		nl := rng.Intn(4)
-		h.Write(i8(int32(nl)))
+		h.Write(i8(lie(int32(nl))))
 		for k := 0; k < nl; k++ {
 			h.Write(i8(int32(rng.Intn(1000))))
 		}
@@ -606,7 +648,10 @@ func c11Run(c core.Case) *core.Result {
 		}
 	case "cram":
 		for i := 0; i < 4; i++ {
-			valid = append(valid, c11Cram(rng))
+			valid = append(valid, c11Cram(rng, false))
+		}
+		for i := 0; i < 40; i++ {
+			valid = append(valid, c11Cram(rng, true)) // checksum-valid streams whose fields lie
 		}
 	case "tf8":
 		for i := 0; i < 8; i++ {
